@@ -54,6 +54,12 @@ def user_model(name):
         p1 = (MotifChange("A", "G") | MotifChange("C", "T")).aliased("u_or")
         p2 = (~MotifChange("A", "C")).aliased("u_not_ac")
         return TimeReversibleNucleotide(predicates=[p1, p2], name="user", recode_gaps=True)
+    if name == "user:TimeReversibleNucleotide:directed":
+        return TimeReversibleNucleotide(predicates=[MotifChange("A", "G", forward_only=True).aliased("u_fwd")], name="user_directed", recode_gaps=True)
+    if name == "user:TimeReversibleNucleotide:mirrored":
+        return TimeReversibleNucleotide(
+            predicates=[MotifChange("A", "G", forward_only=True).aliased("u_fwd"), MotifChange("G", "A", forward_only=True).aliased("u_bwd")],
+            name="user_mirrored", recode_gaps=True)
     if name == "user:NonReversibleNucleotide":
         return NonReversibleNucleotide(predicates=[MotifChange("A", "G", forward_only=True).aliased("u_fwd")], name="user_ns")
     if name.startswith("user:Dinucleotide:"):
@@ -86,6 +92,26 @@ def make_lf(rec, **kw):
     for pn, v in rec["params"]:
         lf.set_param_rule(pn, value=float(frac(v)), is_constant=True)
     return lf
+
+
+def check_refused(run, rec):
+    """A parameterisation the spec's admission rule excludes from the time-reversible classes: the real class must refuse
+    it, or - if it builds - its rate matrix must still satisfy detailed balance at the spec's parameter values."""
+    key0 = f"admission:{rec['name']}"
+    try:
+        lf = make_lf(rec)
+    except (ValueError, TypeError, AssertionError, KeyError) as ex:
+        return 1  # refused, as the spec requires
+    pi = lf.get_motif_probs()
+    pi = pi.to_dict() if hasattr(pi, "to_dict") else dict(pi)
+    Q = lf.get_rate_matrix_for_edge("a", calibrated=True)
+    names = list(Q.template.names[0])
+    arr = Q.array
+    worst = max(abs(pi[x] * arr[a, b] - pi[y] * arr[b, a]) for a, x in enumerate(names) for b, y in enumerate(names))
+    if worst > 1e-12:
+        run.fail(f"{key0}:accepted-without-detailed-balance", {"instance": rec["name"], "tag": rec["tag"], "params": rec["params"], "max_imbalance": float(worst)},
+                 what="a time-reversible class accepted exchangeability terms that are not symmetric; pi_i Q_ij != pi_j Q_ji")
+    return 1
 
 
 def check_Q(run, rec):
@@ -282,6 +308,11 @@ def check(run: Run):
                 continue
             seen.add(k)
             ninst += 1
+            if rec["act"] == "Refuse":
+                ncells += check_refused(run, rec)
+                run.cov.setdefault("by_action", {}).setdefault("Refuse", 0)
+                run.cov["by_action"]["Refuse"] += 1
+                continue
             ncells += check_Q(run, rec)
             run.sample({"instance": rec["name"], "tag": rec["tag"], "params": rec["params"], "mu": rec["mu"], "n_cells": len(rec["cells"])}, limit=3)
         emit2 = scratch / "p.ndjson"
